@@ -52,7 +52,7 @@ def decoding_components(rep, idx):
         rep.ok("C01.2", c.fi.site, "the subordinate is looked up by the map at position 0 of the same tuple",
                f"lookup {ir.show(r.sub)}")
         reg_ok = r.registry == c.parse("self._subs")
-        rep.check(reg_ok, "C01.2", c.fi.site, "elaborate() reads the registry that add() fills", f"registry is {ir.show(r.registry)}")
+        rep.form(reg_ok, "C01.2", c.fi.site, "elaborate() reads the registry that add() fills", f"registry is {ir.show(r.registry)}")
         ctor = get_ctor(idx, spec)
         mm = ctor.stored("self.bus.memory_map")
         rep.check(mm is not None and mm[0] == 'call' and ir.show(mm[1]).endswith("MemoryMap"), "C01.1", ctor.fi.site,
